@@ -335,6 +335,38 @@ fn op_parse(prop: &str, line: &str, args: &[SExp]) -> CaseResult {
             oracle = Some(format!("async parser differs: {} vs {}", clip(&atext), clip(&ptext)));
         }
     }
+    // the other public ways into the same parsers (a bare reader converted by `From`/`Into`; `parse()` instead of
+    // `parse_parts()`): same header, attributes and trailing bytes, same errors.  Every third input.
+    if oracle.is_none() && bytes.len() % 3 == 0 && bytes.len() <= 1 << 20 {
+        let via_parse = |r: Result<IppRequestResponse, IppParseError>| -> String {
+            match r {
+                Ok(resp) => {
+                    let (h, a) = (resp.header().clone(), resp.attributes().clone());
+                    let rest = {
+                        use std::io::Read;
+                        let mut v = vec![];
+                        let _ = resp.into_payload().read_to_end(&mut v);
+                        v
+                    };
+                    parsed_text(Ok((h, a, rest))).0
+                }
+                Err(e) => parsed_text(Err(e)).0,
+            }
+        };
+        let t1 = via_parse(ipp::parser::IppParser::new(std::io::Cursor::new(bytes.clone())).parse());
+        let t2 = via_parse(ipp::parser::IppParser::new(ipp::reader::IppReader::from(std::io::Cursor::new(bytes.clone()))).parse());
+        let t3 = via_parse(futures_executor::block_on(ipp::parser::AsyncIppParser::new(futures_util::io::Cursor::new(bytes.clone())).parse()));
+        let t4 = via_parse(futures_executor::block_on(
+            ipp::parser::AsyncIppParser::new(ipp::reader::AsyncIppReader::from(futures_util::io::Cursor::new(bytes.clone()))).parse(),
+        ));
+        for (name, t) in [("IppParser::new(reader).parse()", &t1), ("IppParser::new(IppReader::from(reader)).parse()", &t2),
+                          ("AsyncIppParser::new(reader).parse()", &t3), ("AsyncIppParser::new(AsyncIppReader::from(reader)).parse()", &t4)] {
+            if *t != ptext {
+                oracle = Some(format!("{} gives {} but parse_parts() on an explicit reader gives {}", name, clip(t), clip(&ptext)));
+                break;
+            }
+        }
+    }
     let _ = prop;
     let class = outcome_class(&ptext);
     CaseResult { line: line.into(), result: ptext, oracle, class }
